@@ -108,7 +108,7 @@ func (e *Env) modelDecodeOne(l *facts.Level, rule string) *decodeOneModel {
 	// the split of the token
 	for _, lf := range leaves {
 		for _, ef := range lf.Effects {
-			if ef.Kind == "call" && isCallOf(ef.Val, "strings.Split") {
+			if ef.Kind == "call" && (isCallOf(ef.Val, "strings.Split") || isCallOf(ef.Val, "strings.SplitN")) {
 				if m.Split == nil {
 					m.Split = ef.Val
 				} else if m.Split.Key() != ef.Val.Key() {
@@ -122,8 +122,27 @@ func (e *Env) modelDecodeOne(l *facts.Level, rule string) *decodeOneModel {
 		c.Undecided(rule, who, pos, "no strings.Split of the token found")
 		return m
 	}
-	sepOK := len(m.Split.Args) == 2 && m.Split.Args[0].Key() == str.Key() && m.Split.Args[1].Op == ir.OConst && m.Split.Args[1].C != nil && m.Split.Args[1].C.Kind() == constant.String && constant.StringVal(m.Split.Args[1].C) == ":"
-	c.Check(sepOK, "token-split", who, e.P.Pos(m.Split.Pos), `strings.Split(token, ":") on the unmodified token`, "the token is not split as strings.Split(<unmodified parameter>, \":\"): "+m.Split.Pretty())
+	sepOK := len(m.Split.Args) >= 2 && m.Split.Args[0].Key() == str.Key() && m.Split.Args[1].Op == ir.OConst && m.Split.Args[1].C != nil && m.Split.Args[1].C.Kind() == constant.String && constant.StringVal(m.Split.Args[1].C) == ":"
+	c.Check(sepOK, "token-split", who, e.P.Pos(m.Split.Pos), `the unmodified token is split at ":"`, "the token is not split as strings.Split(<unmodified parameter>, \":\"): "+m.Split.Pretty())
+	// strings.SplitN(token, ":", n) with 0 <= n <= 2 folds extra colons into the value part: the accepted
+	// language is unchanged (no value code contains ':'), but a token with an extra colon is then no longer
+	// classified as malformed (C11).
+	if isCallOf(m.Split, "strings.SplitN") {
+		n, okN := int64(-1), false
+		if len(m.Split.Args) == 3 && m.Split.Args[2].Op == ir.OConst && m.Split.Args[2].C != nil {
+			n, okN = constant.Int64Val(m.Split.Args[2].C)
+		}
+		switch {
+		case !okN:
+			c.Undecided("token-split-kind", who, e.P.Pos(m.Split.Pos), "strings.SplitN with a non-constant limit")
+		case n >= 0 && n <= 2:
+			c.Fail("token-split-kind", who, e.P.Pos(m.Split.Pos), fmt.Sprintf("strings.SplitN(token, \":\", %d): a token with an extra ':' is no longer rejected as malformed (invalid vector) but by whatever the value parser makes of it", n))
+		default:
+			c.Ok("token-split-kind", who, e.P.Pos(m.Split.Pos), "SplitN limit does not hide extra colons")
+		}
+	} else {
+		c.Ok("token-split-kind", who, e.P.Pos(m.Split.Pos), "strings.Split: every ':' counts")
+	}
 	// delegation
 	if l.Lower != nil {
 		low := l.Lower.Method("decodeOne")
@@ -476,7 +495,7 @@ func (e *Env) decodeCallAllowed(t *ir.Term, l *facts.Level) bool {
 			return false
 		}
 		switch fn.FullName() {
-		case "strings.Split", "github.com/goark/errs.Wrap", "github.com/goark/errs.WithContext", "github.com/goark/errs.Is":
+		case "strings.Split", "strings.SplitN", "github.com/goark/errs.Wrap", "github.com/goark/errs.WithContext", "github.com/goark/errs.Is":
 			return true
 		}
 		if fn.Pkg() == l.Pkg.Types {
